@@ -18,7 +18,7 @@ import deribit_lib as L
 from common import Ctx, driver_json
 
 PROPERTY = "C16"
-LEAN_MODULES = ["Proofs.C16"]
+LEAN_MODULES = ["Proofs.C16", "Proofs.C16.Run"]
 DRIVERS = ["driver_deribit"]
 RULE = ("whole backtests through Actuator.run: 2-5 hours, interval 1min (with a minutely Uniswap co-market) / 5min / 1h; calls and puts, strikes around the "
         "underlying path and around the fallback token price, expiry before the first bar / on an hour / between hours / after the last bar, instrument "
@@ -262,7 +262,8 @@ def oracle(ctx, sc, rec, balances, prices, rep):
             if row is not None:
                 S, mark, present = Fraction(row["underlying"]), Fraction(row["mark"]), "row-present"
             else:
-                S, mark, present = Fraction(prices.loc[L.ts_of(now)]["ETH"]), Fraction(0), "row-absent"
+                S, mark = Fraction(prices.loc[L.ts_of(now)]["ETH"]), Fraction(0)
+                present = "row-absent" if hour_present(sc, now) else "hour-missing"
             pay, gross, fee, cls = expected_payoff(p, S, mark)
             want_cash += pay
             n_del = del_names.count(p["key"])
@@ -377,7 +378,7 @@ def directed():
 def run(ctx: Ctx):
     reqs = []
     scs = directed() if not ctx.search else []
-    n = ctx.scale(36, 1200)
+    n = ctx.scale(26, 1200)
     for _ in range(n):
         scs.append(gen_scenario(ctx.rng))
     for sc in scs:
